@@ -4,6 +4,7 @@ import (
 	"fmt"
 	"math"
 	"reflect"
+	"regexp"
 	"strconv"
 	"strings"
 
@@ -123,6 +124,7 @@ func (c *check) runUnits(ctx *engine.Ctx, p *propInfo) {
 		engines = append(engines, "gotext")
 		nctx = 2
 	}
+	c.runKeywords(ctx, p, engines)
 	isFS := p.name == "font-size"
 	broken := map[string]bool{} // units whose evaluation crashed: not repeated at every position
 	for _, tmpl := range p.templates {
@@ -130,16 +132,23 @@ func (c *check) runUnits(ctx *engine.Ctx, p *propInfo) {
 		for _, eng := range engines {
 			for cx := 0; cx < nctx; cx++ {
 				for pos := 0; pos < nPos; pos++ {
+					// rootPseudo: the pseudo-elements of the root carry a font size of their own
+					// (only the font-relative units are evaluated a second time)
+					rootPseudo := false
 					mk := func(l string) *spec {
-						s := &spec{pos: pos, p: p, state: strings.ReplaceAll(tmpl, "{L}", l), ctx: cx}
+						s := &spec{pos: pos, p: p, state: strings.ReplaceAll(tmpl, "{L}", l), ctx: cx, rootPseudo: rootPseudo}
 						if isFS && pos != posRoot {
 							s.parent = "20px"
 						}
 						return s
 					}
 					feats := func(unit string) []string {
-						return []string{"pos:" + posNames[pos], "prop:" + p.name, "fam:" + family(p.name), "ctx:" + ctxNames[cx], "engine:" + eng,
+						f := []string{"pos:" + posNames[pos], "prop:" + p.name, "fam:" + family(p.name), "ctx:" + ctxNames[cx], "engine:" + eng,
 							"unit:" + unit, "tmpl:" + sanitize(tmpl)}
+						if rootPseudo {
+							f = append(f, "rootpseudo:foreign")
+						}
+						return f
 					}
 					eval := func(l, unit string) (pr.CssProperty, *spec, bool) {
 						s := mk(l)
@@ -196,12 +205,14 @@ func (c *check) runUnits(ctx *engine.Ctx, p *propInfo) {
 						R = 16 // rem on the root's font-size refers to the initial value
 					}
 					px := func(x float64) string { return fmt.Sprintf("%gpx", x) }
-					cmp("em", "2em", px(2*F), "R6-font-relative")
-					cmp("rem", "2rem", px(2*R), "R6-font-relative")
-					cmp("ex", "5ex", px(5*0.8*F), "R6-font-relative") // Ahem: x-height 0.8em
-					cmp("ch", "3ch", px(3*F), "R6-font-relative")     // Ahem: advance of 0 is 1em
-					if isFS && tmpl == "{L}" {
-						cmp("%", "150%", px(1.5*F), "R6-font-relative")
+					for _, rootPseudo = range []bool{false, true} {
+						cmp("em", "2em", px(2*F), "R6-font-relative")
+						cmp("rem", "2rem", px(2*R), "R6-font-relative")
+						cmp("ex", "5ex", px(5*0.8*F), "R6-font-relative") // Ahem: x-height 0.8em
+						cmp("ch", "3ch", px(3*F), "R6-font-relative")     // Ahem: advance of 0 is 1em
+						if isFS && tmpl == "{L}" {
+							cmp("%", "150%", px(1.5*F), "R6-font-relative")
+						}
 					}
 				}
 			}
@@ -372,4 +383,223 @@ func (c *check) sharedRule(ctx *engine.Ctx, p *propInfo, tmpl string) {
 				Detail: fmt.Sprintf("div (font-size %gpx) has %s, expected %s; p (font-size %gpx) has %s, expected %s", wantDiv/2, canon(p.name, false, gd), canon(p.name, false, wd), wantP/2, canon(p.name, false, gp), canon(p.name, false, wp))})
 		}
 	}
+}
+
+// ---- keywords of the length-valued properties ------------------------------------------------
+
+// lengthKeywords is the menu of the keyword alternatives of the length-valued properties, from
+// their definition tables (CSS 2.1, Sizing 3, Flexbox 1, Grid 2, Backgrounds 3, Fonts 4, Text 3,
+// Inline 3, Page 3, GCPM 3, Multicol 1, Align 3, Transforms 1): one symbol per keyword that can
+// stand where a <length> can. The computer functions tell keywords from lengths by comparing
+// strings (length_: auto, content; pixelLength, gap, wordSpacing: normal; verticalAlign; bleed;
+// borderWidth; fontSize; size ...), one branch per keyword.
+var lengthKeywords = []string{
+	"auto", "none", "normal", "content", "min-content", "max-content", "fit-content", "stretch", "contain", "cover",
+	"thin", "medium", "thick",
+	"xx-small", "x-small", "small", "large", "x-large", "xx-large", "xxx-large", "larger", "smaller",
+	"baseline", "sub", "super", "text-top", "text-bottom", "middle", "top", "bottom", "left", "right", "center",
+	"subgrid", "auto-fill", "auto-fit",
+	"a5", "a4", "a3", "b5", "b4", "jis-b5", "jis-b4", "letter", "legal", "ledger", "landscape", "portrait",
+}
+
+// searchKeywords fills p.kwValues for a length-valued property: every keyword of the menu the
+// validator accepts alone, the pixel length alone, and for the templates with several slots the
+// keyword in the first / in the last slot next to pixel lengths. A validator that accepts an
+// identifier that is no keyword (bleed-*, tab-size, transform-origin take any identifier for a
+// zero length; that is the validator's business, not this property's) is counted, and such
+// "keywords" are left out: a keyword counts only when it validates to something else.
+func (c *check) searchKeywords(p *propInfo) {
+	if len(p.templates) == 0 || p.custom {
+		return
+	}
+	bogus := validated(p, "c04-no-such-keyword")
+	p.anyIdent = bogus != nil
+	seen := map[string]bool{}
+	add := func(value, kw, tmpl string) {
+		if seen[value] {
+			return
+		}
+		seen[value] = true
+		v := validated(p, value)
+		if v == nil || (kw != "" && bogus != nil && canon(p.name, false, v) == canon(p.name, false, bogus)) {
+			return
+		}
+		p.kwValues = append(p.kwValues, kwValue{value: value, keyword: kw, tmpl: tmpl, decl: v})
+	}
+	for _, t := range p.templates {
+		add(strings.ReplaceAll(t, "{L}", "96px"), "", t)
+	}
+	for _, kw := range lengthKeywords {
+		add(kw, kw, "{L}")
+		for _, t := range p.templates {
+			if n := strings.Count(t, "{L}"); n >= 2 {
+				first := strings.Replace(t, "{L}", kw, 1)
+				add(strings.ReplaceAll(first, "{L}", "96px"), kw, t)
+				i := strings.LastIndex(t, "{L}")
+				last := t[:i] + kw + t[i+len("{L}"):]
+				add(strings.ReplaceAll(last, "{L}", "96px"), kw, t)
+			}
+		}
+	}
+}
+
+// kwExpect is the reference for a value made of keywords and pixel lengths only. Such a value
+// has nothing relative in it: its computed value is the value as specified ("as specified, with
+// lengths made absolute" in every definition table), except where the definition table says
+// otherwise; those exceptions are listed here with their source.
+//
+//	same    the computed value is the validated declared value
+//	zero    0px
+//	length  an absolute length in px (the specification leaves the number to the user agent)
+//	free    nothing is demanded
+type kwRule int
+
+const (
+	kwSame kwRule = iota
+	kwZero
+	kwLength
+	kwFree
+)
+
+func borderStyleOf(name string, cx int) string {
+	// the border style the context declares next to the width (ctxDecls)
+	want := strings.TrimSuffix(name, "-width") + "-style:"
+	for _, d := range ctxDecls[cx] {
+		if strings.HasPrefix(d, want) {
+			return d[len(want):]
+		}
+	}
+	return "none"
+}
+
+func kwExpect(p *propInfo, kv kwValue, cx int) (rule kwRule, px float64) {
+	switch family(p.name) {
+	case "border-width", "outline", "column-rule":
+		if strings.HasSuffix(p.name, "-width") {
+			// Backgrounds 3 §3.3, UI 4 §3.2, Multicol 1 §4.4: absolute length; 0 if the style is none or hidden
+			if st := borderStyleOf(p.name, cx); st == "none" || st == "hidden" {
+				return kwZero, 0
+			}
+			if kv.keyword != "" {
+				return kwLength, 0 // thin, medium, thick
+			}
+		}
+	case "bleed":
+		if kv.keyword == "auto" {
+			// GCPM 3 / Page 3 §7.3: auto computes to 6pt if marks has crop, to zero otherwise
+			for _, d := range ctxDecls[cx] {
+				if d == "marks:crop" {
+					return kwLength, 8
+				}
+			}
+			return kwZero, 0
+		}
+	}
+	switch p.name {
+	case "font-size":
+		if kv.keyword != "" {
+			return kwLength, 0 // Fonts 4 §2.5: absolute length
+		}
+	case "word-spacing":
+		if kv.keyword == "normal" {
+			return kwZero, 0 // Text 3 §8.1: computed value: an absolute length (normal = 0)
+		}
+	case "letter-spacing":
+		if kv.keyword == "normal" {
+			return kwFree, 0 // CSS 2.1: 'normal' or absolute length; Text 3: an absolute length
+		}
+	case "vertical-align":
+		if kv.keyword == "sub" || kv.keyword == "super" {
+			// CSS 2.1 says as specified; the implementation stores the shift it will use
+			// (±0.5em). The keyword is gone but nothing of the statement depends on it.
+			return kwFree, 0
+		}
+	}
+	return kwSame, 0
+}
+
+// pxOf: the value is one absolute pixel length (and nothing else).
+func pxOf(v pr.CssProperty) (float64, bool) {
+	if d, ok := v.(pr.DimOrS); ok && d.S == "" && (d.Unit == pr.Px || d.Unit == pr.Scalar || (d.Unit == 0 && d.Value == 0)) {
+		return float64(d.Value), true
+	}
+	return 0, false
+}
+
+// runKeywords: block C, the part of the value space that is not a relative length. Every
+// value of p.kwValues × position × context × engine; clause R6-keyword.
+func (c *check) runKeywords(ctx *engine.Ctx, p *propInfo, engines []string) {
+	if p.anyIdent {
+		ctx.Count("validator-accepts-any-identifier", 1)
+		ctx.Count("validator-accepts-any-identifier:"+p.name, 1)
+	}
+	for _, kv := range p.kwValues {
+		if kv.keyword != "" {
+			ctx.Count("length_keywords", 1)
+		}
+		for _, eng := range engines {
+			for cx := 0; cx < c.nctx(); cx++ {
+				rule, wantPx := kwExpect(p, kv, cx)
+				for pos := 0; pos < nPos; pos++ {
+					s := &spec{pos: pos, p: p, state: kv.value, ctx: cx}
+					if p.name == "font-size" && pos != posRoot {
+						s.parent = "20px"
+					}
+					unit := "px"
+					if kv.keyword != "" {
+						unit = "keyword"
+					}
+					feats := []string{"pos:" + posNames[pos], "prop:" + p.name, "fam:" + family(p.name), "ctx:" + ctxNames[cx], "engine:" + eng,
+						"unit:" + unit, "tmpl:" + sanitize(kv.tmpl)}
+					if kv.keyword != "" {
+						feats = append(feats, "kw:"+kv.keyword)
+					}
+					src := s.html()
+					var got pr.CssProperty
+					desc := fmt.Sprintf("keyword %s engine=%s doc=%s", s.String(), eng, src)
+					ok := c.guard(ctx, desc, feats, func() { got = c.value(s, src, eng) })
+					ctx.Trans(1)
+					if !ok {
+						ctx.Case(true, "panic")
+						continue
+					}
+					g := canon(p.name, false, got)
+					ctx.Case(rule != kwFree, g)
+					bad, want := false, ""
+					switch rule {
+					case kwSame:
+						ctx.Count("reach:R6-keyword:as-specified", 1)
+						want = canon(p.name, false, kv.decl)
+						bad = !approx(got, kv.decl) && sameLength(g) != sameLength(want)
+					case kwZero:
+						ctx.Count("reach:R6-keyword:zero", 1)
+						want = "0px"
+						x, isPx := pxOf(got)
+						bad = !isPx || x != 0
+					case kwLength:
+						ctx.Count("reach:R6-keyword:absolute-length", 1)
+						want = "an absolute length in px"
+						x, isPx := pxOf(got)
+						bad = !isPx || x <= 0
+						if wantPx != 0 {
+							want = fmt.Sprintf("%gpx", wantPx)
+							bad = !isPx || math.Abs(x-wantPx) > 1e-4
+						}
+					}
+					if bad {
+						c.fail(ctx, engine.Failure{Clause: "R6-keyword", Features: feats, Case: desc,
+							Detail: fmt.Sprintf("%s:%s (validated as %s) computes to %s; expected %s", p.name, kv.value, canon(p.name, false, kv.decl), g, want)})
+					}
+				}
+			}
+		}
+	}
+}
+
+var scalarUnitRe = regexp.MustCompile(`Unit:0x1\}`)
+
+// sameLength folds the two encodings of an absolute pixel length (Unit Px, or a unit-less
+// number read as pixels: vertical-align, letter-spacing, size) in a canonical form.
+func sameLength(canonical string) string {
+	return scalarUnitRe.ReplaceAllString(pxUnitRe.ReplaceAllString(canonical, "Unit:px}"), "Unit:px}")
 }
